@@ -214,6 +214,9 @@ int main(int argc, char **argv) {
 				if (f.r != LZMA_STREAM_END || f.badseek) h_fail("fileinfo:readsize", "read size %zu: r=%d badseek=%d layout=[%s]", CH[c % 10], f.r, f.badseek, layout); else if (cmp_index(ix, why, sizeof why)) h_fail("fileinfo:index-vs-ref", "%s layout=[%s] read=%zu", why, layout, CH[c % 10]);
 				else if ((CH[c % 10] == 0 || CH[c % 10] >= flen) && f.seeks) h_fail("fileinfo:seek-with-whole-file", "whole file in one buffer but LZMA_SEEK_NEEDED returned %ld times (index.h: no external seeking then) layout=[%s]", f.seeks, layout); lzma_index_end(ix, NULL); }
 			use_finish = 0;
+			// every read size from 12 bytes to the whole file (the first, forward seek lands at a position that depends on where the first read ended)
+			for (size_t c = 12; c <= flen; c += (thorough || variant == 1 || c < 2000 ? 1 : 7)) { H_CASE("c13_fileinfo layout=[%s] read=%zu (sweep)", layout, c); lzma_index *ix = NULL; char why[200]; fres f = run(c, 1L << 40, 0, &ix); runs++;
+				if (f.r != LZMA_STREAM_END || f.badseek) h_fail("fileinfo:readsize", "read size %zu: r=%d badseek=%d layout=[%s]", c, f.r, f.badseek, layout); else if (cmp_index(ix, why, sizeof why)) h_fail("fileinfo:index-vs-ref", "%s layout=[%s] read=%zu", why, layout, c); lzma_index_end(ix, NULL); }
 			// reuse: the same lzma_stream first gets a damaged copy (first Stream's footer), then the valid file
 			{ static unsigned char dmg[1 << 17]; memcpy(dmg, file, flen); size_t first_end = info.st_off[1] - 4; dmg[first_end - 3] ^= 0x40;
 			  lzma_stream s = LZMA_STREAM_INIT; lzma_index *i1 = NULL, *i2 = NULL; H_CASE("c13_fileinfo reuse after failed decode layout=[%s]", layout);
